@@ -175,6 +175,16 @@ func rewriteFile(path, pkgLabel string, points bool, syncOnly bool) ([]byte, sta
 				c.Replace(call("Close", n.Args[0]))
 				st.Close++
 			}
+			// reflect.Value.TryRecv / TrySend: non-blocking channel operations through reflection
+			if se, ok := n.Fun.(*ast.SelectorExpr); ok && !syncOnly {
+				if se.Sel.Name == "TryRecv" && len(n.Args) == 0 {
+					c.Replace(call("TryRecv", se.X))
+					st.Recv++
+				} else if se.Sel.Name == "TrySend" && len(n.Args) == 1 {
+					c.Replace(call("TrySend", se.X, n.Args[0]))
+					st.Send++
+				}
+			}
 		case *ast.SelectStmt:
 			if !syncOnly {
 				c.Replace(rewriteSelect(n, origSelect[n]))
@@ -268,10 +278,44 @@ func main() {
 		dir, label string
 		generated  map[string]bool
 	}
-	pkgs := []pk{
-		{".", "ysgo", nil}, {"markup", "markup", nil}, {"variable", "variable", nil}, {"internal/tree", "tree", nil}, {"internal/rng", "rng", nil}, {"internal/container", "container", nil},
-		{"internal/parser", "parser", map[string]bool{"yarnspinner_lexer.go": true, "yarnspinner_parser.go": true, "yarnspinnerparser_listener.go": true, "yarnspinnerparser_base_listener.go": true}},
-	}
+	// every package of the repository (directories holding non-test .go files), so that no channel
+	// operation of the code under test escapes the scheduler
+	generated := map[string]bool{"yarnspinner_lexer.go": true, "yarnspinner_parser.go": true, "yarnspinnerparser_listener.go": true, "yarnspinnerparser_base_listener.go": true}
+	var pkgs []pk
+	filepath.WalkDir(*repo, func(path string, d os.DirEntry, err error) error {
+		if err != nil || !d.IsDir() {
+			return nil
+		}
+		base := filepath.Base(path)
+		if path != *repo && (strings.HasPrefix(base, ".") || base == "testdata" || base == "vendor" || base == "REFACTOR" || base == "MUTANT") {
+			return filepath.SkipDir
+		}
+		files, _ := filepath.Glob(filepath.Join(path, "*.go"))
+		has := false
+		for _, f := range files {
+			if !strings.HasSuffix(f, "_test.go") {
+				has = true
+			}
+		}
+		if !has {
+			return nil
+		}
+		rel, _ := filepath.Rel(*repo, path)
+		label := filepath.Base(rel)
+		if rel == "." {
+			label = "ysgo"
+		}
+		p := pk{dir: rel, label: label}
+		if rel == filepath.Join("internal", "parser") {
+			p.generated = generated
+		}
+		if rel == filepath.Join("internal", "testutils") {
+			return nil
+		}
+		pkgs = append(pkgs, p)
+		return nil
+	})
+	sort.Slice(pkgs, func(i, j int) bool { return pkgs[i].dir < pkgs[j].dir })
 	total := stats{}
 	for _, p := range pkgs {
 		files, _ := filepath.Glob(filepath.Join(*repo, p.dir, "*.go"))
